@@ -14,6 +14,8 @@ def has(case, extra):
 
 
 PREDICATES = {
+    # a multi-exon gene whose exons lie in different parts of an origin-spanning region (the intron spans what the region leaves out)
+    "C19-F1": lambda case, clause: clause == "exons-apart-gene-outside-range",
     # a hidden entry (index 8 of the directory menu) as the only foreign content of the output directory
     "C20-F1": lambda case, clause: case.get("kind") == "dir" and 8 in case.get("subset", ()) and clause == "foreign-content-accepted",
     # interplay of the refinement stages (merge -> overlap removal -> incomplete removal): an input is dropped although no kept
